@@ -15,6 +15,7 @@ import (
 type Action struct {
 	Tag       string      `json:"tag"`
 	Steps     []plug.Step `json:"steps"`
+	Steps2    []plug.Step `json:"steps2,omitempty"` // script in a process that came up after a crash
 	Retries   int         `json:"retries,omitempty"`
 	TimeoutMS int         `json:"timeout_ms,omitempty"` // 0 = leave to Submit's default
 	Pointer   bool        `json:"ptr,omitempty"`        // pointer-typed plugin flavour
@@ -176,7 +177,7 @@ func ParseTag(tag string) (Addr, bool) {
 }
 
 func (p *Plan) action(a Action, check bool) *workflow.Action {
-	req := plug.Req{Plan: p.Name, Tag: a.Tag, Steps: a.Steps}
+	req := plug.Req{Plan: p.Name, Tag: a.Tag, Steps: a.Steps, Steps2: a.Steps2}
 	wa := &workflow.Action{Name: a.Tag, Descr: "action " + a.Tag, Retries: a.Retries}
 	if a.TimeoutMS > 0 {
 		wa.Timeout = time.Duration(a.TimeoutMS) * time.Millisecond
